@@ -154,7 +154,9 @@ def gen_fmt_attr(rng, field_names, allow_variant=False, bare_bias=False):
     arg_srcs = [(f"{al} = {src}" if al else src) for al, _, src in args]
     src = '"' + lit + '"' + ("".join(", " + a for a in arg_srcs)) + ("," if trailing and (args or rng.chance(1, 2)) else "")
     had_comma = "," in src[len(lit) + 2:]
-    emit = '"' + lit + '"' + ("," if had_comma else "") + ",".join(strip_ws(a) for a in arg_srcs)
+    # FmtAttribute re-emits `lit [,] args`; the comma after the literal is kept only when arguments follow
+    # (`"x",` alone would otherwise double the comma in `write!(f, "x", ,)`: fixed by 5810693)
+    emit = '"' + lit + '"' + ("," if had_comma and arg_srcs else "") + ",".join(strip_ws(a) for a in arg_srcs)
     sexp = (f"(fmt {H(lit)} {H(emit)} (args " +
             " ".join(f"(a {H(al) if al else '-'} {H(idn) if idn else '-'} {H(strip_ws(s))})" for al, idn, s in args) + "))")
     return {"lit": lit, "args": args, "src": src, "sexp": sexp, "emit": emit}
